@@ -124,7 +124,7 @@ type baseProg struct {
 type job struct {
 	id     int
 	base   *baseProg
-	kind   string // single | pair | script | compat-script | identical | restyled
+	kind   string // single | pair | neighbour-pair | replace-pair | script | compat-script | identical | restyled
 	edits  []int  // indices into base.edits, in application order
 	style  idl.Style
 	binary bool // also through the real binary
@@ -150,11 +150,31 @@ type result struct {
 	binAgree int
 	binDis   int
 	newDir   string
+
+	restyleRejected int
 }
 
 type vio struct {
 	sig, what string
 	witness   map[string]interface{}
+}
+
+// Only the lowest job of each signature keeps its witness (jobs are handed
+// out in order, so few witnesses are ever built): thousands of pairs may hit
+// one signature class.
+var (
+	witnessMu     sync.Mutex
+	witnessLowest = map[string]int{}
+)
+
+func wantWitness(sig string, jobID int) bool {
+	witnessMu.Lock()
+	defer witnessMu.Unlock()
+	if low, ok := witnessLowest[sig]; ok && low < jobID {
+		return false
+	}
+	witnessLowest[sig] = jobID
+	return true
 }
 
 func conflict(a, b *edit) bool {
@@ -166,6 +186,49 @@ func conflict(a, b *edit) bool {
 		}
 	}
 	return false
+}
+
+// rareOps have few applicable sites in a random program (one-way methods,
+// void methods and their exception sets, inheritance, widenable constants).
+var rareOps = map[string]bool{
+	"flip-oneway": true, "add-first-exception-to-void": true, "remove-all-exceptions-of-void": true, "retype-exception": true,
+	"change-extends": true, "remove-extends": true, "add-extends": true, "change-const-type": true, "rename-prefix-variable": true,
+}
+
+// addFor maps a removing operator to the adding operators of the same list.
+var addFor = map[string]map[string]bool{
+	"remove-field":      {"add-optional-field-end": true, "add-default-field-end": true},
+	"remove-enum-value": {"add-enum-value-end": true},
+	"remove-arg":        {"add-arg-end": true},
+	"remove-method":     {"add-method-end": true},
+	"rename-method":     {"add-method-end": true},
+	"remove-operation":  {"add-operation": true},
+	"rename-operation":  {"add-operation": true},
+	"remove-struct":     {"add-struct": true},
+	"rename-struct":     {"add-struct": true},
+	"remove-service":    {"add-service": true},
+	"rename-service":    {"add-service": true},
+	"remove-scope":      {"add-scope": true},
+	"rename-scope":      {"add-scope": true},
+}
+
+// containerOf names the list an edit adds to / removes from: the first
+// conflict key without its last component.
+func containerOf(e *edit) string {
+	k := e.Keys[0]
+	if i := strings.LastIndex(k, "/"); i > 0 {
+		return k[:i]
+	}
+	return k
+}
+
+// declOf names the top-level declaration an edit works in ("file/Decl").
+func declOf(e *edit) string {
+	parts := strings.SplitN(e.Keys[0], "/", 3)
+	if len(parts) < 2 {
+		return e.Keys[0]
+	}
+	return parts[0] + "/" + parts[1]
 }
 
 func opList(es []*edit, breaking bool) string {
@@ -198,6 +261,50 @@ func qualSuffix(es []*edit, g string) string {
 		s += ":via-include"
 	}
 	return s
+}
+
+// blame names the operator of a refuted multi-edit script: the first edit
+// that reproduces the wrong verdict when applied alone (same signature as the
+// exhaustive single-edit pass gives it), else the combination.
+func blame(bp *baseProg, g, oldFile string, cands, script []*edit, wrongFail bool, dir string, style idl.Style) string {
+	if len(script) == 1 {
+		return cands[0].Op + qualSuffix(cands, g)
+	}
+	for i, e := range cands {
+		c := &ectx{p: bp.p.Clone()}
+		if !e.apply(c) || validateProgram(c.p) != nil || c.p.File(g) == nil {
+			continue
+		}
+		d := filepath.Join(dir, fmt.Sprintf("blame%d", i))
+		if _, err := idl.WriteProgram(c.p, d, style); err != nil {
+			continue
+		}
+		v := newInproc().audit(oldFile, filepath.Join(d, c.p.File(g).FileName()))
+		os.RemoveAll(d)
+		if v.Bad == "" && v.Fail == wrongFail {
+			return e.Op + qualSuffix([]*edit{e}, g)
+		}
+	}
+	// no edit of the script is misjudged on its own: the others mask it
+	var others []*edit
+	for _, e := range script {
+		mine := false
+		for _, c := range cands {
+			if c == e {
+				mine = true
+			}
+		}
+		if !mine {
+			others = append(others, e)
+		}
+	}
+	sig := opList(cands, cands[0].Breaking)
+	if len(others) > 0 {
+		sig += ":masked-by:" + opList(others, others[0].Breaking)
+	} else {
+		sig += ":only-in-combination"
+	}
+	return sig
 }
 
 func readFiles(dir string, p *idl.Program) map[string]string {
@@ -246,13 +353,15 @@ func evaluate(j *job, a *inproc, bin string, scratch string) *result {
 	// which files are audited as roots: the root, plus every file an edit is in or affects
 	rootBase := bp.p.Root().Base
 	auditSet := map[string]bool{rootBase: true}
-	breakingIn := map[string]bool{} // files that hold a breaking edit
+	breakingIn := map[string]bool{} // files in which a breaking edit is visible
 	affected := map[string][]*edit{}
 	for _, e := range res.applied {
 		auditSet[e.File] = true
 		if e.Breaking {
-			breakingIn[e.File] = true
+			// a retargeted typedef is a change of the places that use it: the
+			// declaration alone is not audited (and not sent over the wire)
 			for _, g := range e.Affects {
+				breakingIn[g] = true
 				auditSet[g] = true
 				affected[g] = append(affected[g], e)
 			}
@@ -311,6 +420,10 @@ func evaluate(j *job, a *inproc, bin string, scratch string) *result {
 			if !ok {
 				continue
 			}
+			if v.Bad != "" && j.kind == "restyled" {
+				res.restyleRejected++
+				continue
+			}
 			if v.Bad != "" {
 				res.vios = append(res.vios, vio{sig: "INCONCLUSIVE", what: fmt.Sprintf("%s on %s (program %d, %s job %d): %s", src, fo.File, bp.ix, j.kind, j.id, v.Bad)})
 				continue
@@ -319,7 +432,7 @@ func evaluate(j *job, a *inproc, bin string, scratch string) *result {
 			switch {
 			case expect == "fail" && !v.Fail:
 				ops := opList(affected[g], true)
-				sig = "C18:missed-breaking:" + ops + qualSuffix(affected[g], g)
+				sig = "C18:missed-breaking:" + blame(bp, g, oldFile, affected[g], res.applied, false, res.newDir, j.style)
 				what = fmt.Sprintf("%s passed %s although the new program contains the catalogued breaking edit(s) %s", src, fo.File, ops)
 			case expect == "fail(in-included-file)" && !v.Fail:
 				var in []*edit
@@ -328,16 +441,15 @@ func evaluate(j *job, a *inproc, bin string, scratch string) *result {
 						in = append(in, e)
 					}
 				}
-				ops := opList(in, true)
-				sig = "C18:missed-breaking:in-included-file:" + strings.Split(ops, "+")[0]
-				what = fmt.Sprintf("%s passed %s although a file it includes contains the catalogued breaking edit(s) %s (the audit compares the two named files only)", src, fo.File, ops)
+				sig = "C18:missed-breaking:in-included-file:" + in[0].Op
+				what = fmt.Sprintf("%s passed %s although a file it includes contains the catalogued breaking edit(s) %s (the audit compares the two named files only)", src, fo.File, opList(in, true))
 			case expect == "pass" && v.Fail:
 				if len(res.applied) == 0 {
 					sig = "C18:false-alarm:" + j.kind
 					what = fmt.Sprintf("%s failed %s although old and new are the same program (%s)", src, fo.File, j.kind)
 				} else {
 					ops := opList(res.applied, false)
-					sig = "C18:false-alarm:" + ops + qualSuffix(res.applied, g)
+					sig = "C18:false-alarm:" + blame(bp, g, oldFile, res.applied, res.applied, true, res.newDir, j.style)
 					what = fmt.Sprintf("%s failed %s although the script holds catalogued compatible edits only (%s) in this file and its includes", src, fo.File, ops)
 				}
 			}
@@ -354,13 +466,17 @@ func evaluate(j *job, a *inproc, bin string, scratch string) *result {
 					what = fmt.Sprintf("a long-lived Auditor and a fresh one disagree on %s: reused=%v fresh=%v (expected %s)", fo.File, v.Fail, fv.Fail, expect)
 				}
 			}
-			res.vios = append(res.vios, vio{sig: sig, what: what, witness: map[string]interface{}{
-				"program": bp.ix, "job": j.id, "kind": j.kind, "audited_file": fo.File, "expected": expect, "source": src,
-				"script": script, "verdict": v,
-				"command": fmt.Sprintf("frugal -audit old/%s new/%s", bp.p.File(g).FileName(), np.File(g).FileName()),
-				"old":     readFiles(bp.oldDir, bp.p), "new": readFiles(res.newDir, np),
-				"style":   j.style.String(),
-			}})
+			var w map[string]interface{}
+			if wantWitness(sig, j.id) {
+				w = map[string]interface{}{
+					"program": bp.ix, "job": j.id, "kind": j.kind, "audited_file": fo.File, "expected": expect, "source": src,
+					"script": script, "verdict": v,
+					"command": fmt.Sprintf("frugal -audit old/%s new/%s", bp.p.File(g).FileName(), np.File(g).FileName()),
+					"old":     readFiles(bp.oldDir, bp.p), "new": readFiles(res.newDir, np),
+					"style":   j.style.String(),
+				}
+			}
+			res.vios = append(res.vios, vio{sig: sig, what: what, witness: w})
 		}
 		res.outcomes = append(res.outcomes, fo)
 	}
@@ -374,19 +490,19 @@ func evaluate(j *job, a *inproc, bin string, scratch string) *result {
 
 func runC18() int {
 	run := ev.New("C18", ev.ArgTier(), "exploration")
-	run.Rule("N random base programs (idl.Generate, CoreConfig, 1-3 files); new = old + an edit script over the documented catalogue " +
+	run.Rule("N random base programs (idl.Generate, CoreConfig, 1-3 files) + R more on which only the operators with few sites per program are enumerated; new = old + an edit script over the documented catalogue " +
 		"(compiler/parser/audit.go requirement comments + property text): (a) EVERY single operator at EVERY applicable site of every base program " +
 		"(exhaustive per program: every field / argument / exception / method / operation / enum variant / declaration, every node of every type " +
-		"expression, every typedef), (b) pairs of one breaking + one compatible edit (sample, both orders), (c) random scripts of 2-6 edits " +
+		"expression, every typedef), (b) pairs of one breaking + one compatible edit (random sample, same-declaration neighbours, and replacements = a removal plus an addition to the same list; both orders), (c) random scripts of 2-6 edits " +
 		"(mixed and compatible-only), (d) identical text and the same model re-rendered in other lexical styles. Expected: audit fails iff the " +
 		"script holds >= 1 breaking operator, per audited file (the root, and every file an edit is in or is seen from). " +
 		"distinct = (operator, site kind: declaration kind, position first/middle/last/only, nesting depth key/value, requiredness ...)")
 	run.Assume("verif/idl renders the model faithfully (C10 anchors the parser against it); the label of each operator is the one documented in audit.go / the property text (catalogue in the evidence)")
 	run.Assume("two edits of one script never share a site (conflict keys) and added ids / enum numbers / names are fresh, so no edit cancels another")
 
-	nProg, nPairB, nPairC, nScripts, nRestyle, binEvery := 5, 10, 10, 60, 4, 1
+	nProg, nRare, nPairB, nPairC, nNeighbours, nReplace, nScripts, nRestyle, binEvery := 5, 30, 8, 8, 40, 60, 40, 4, 3
 	if run.Thorough() {
-		nProg, nPairB, nPairC, nScripts, nRestyle, binEvery = 200, 7, 7, 30, 3, 4
+		nProg, nRare, nPairB, nPairC, nNeighbours, nReplace, nScripts, nRestyle, binEvery = 200, 300, 6, 6, 30, 40, 24, 3, 8
 	}
 	bin, err := emit.FrugalBin()
 	if err != nil {
@@ -402,7 +518,7 @@ func runC18() int {
 	var bases []*baseProg
 	setup := newInproc()
 	opSites := map[string]int{}
-	for i := 0; i < nProg; i++ {
+	for i := 0; i < nProg+nRare; i++ {
 		rng := run.Rand(fmt.Sprintf("c18-prog-%d", i))
 		bp := &baseProg{ix: i, p: idl.Generate(rng, cfg), style: idl.RandomStyle(rng)}
 		if i%3 == 0 {
@@ -428,6 +544,17 @@ func runC18() int {
 		bases = append(bases, bp)
 		add := func(kind string, edits []int, st idl.Style) {
 			jobs = append(jobs, &job{id: len(jobs), base: bp, kind: kind, edits: edits, style: st})
+		}
+		if i >= nProg {
+			// extra base programs for the operators that have only a handful
+			// of applicable sites per program: every site of those, nothing else
+			for ix, e := range bp.edits {
+				if rareOps[e.Op] {
+					add("single", []int{ix}, bp.style)
+					opSites[e.Op]++
+				}
+			}
+			continue
 		}
 		add("identical", nil, bp.style)
 		for k := 0; k < nRestyle; k++ {
@@ -462,6 +589,53 @@ func runC18() int {
 				} else {
 					add("pair", []int{c, b}, bp.style)
 				}
+			}
+		}
+		// neighbours: a breaking edit together with a compatible edit of the
+		// same declaration (where one change is most likely to mask the other)
+		byDecl := map[string][]int{}
+		for _, c := range co {
+			byDecl[declOf(bp.edits[c])] = append(byDecl[declOf(bp.edits[c])], c)
+		}
+		for k, b := range pick(br, nNeighbours) {
+			cands := byDecl[declOf(bp.edits[b])]
+			if len(cands) == 0 {
+				continue
+			}
+			c := cands[rng.Intn(len(cands))]
+			if conflict(bp.edits[b], bp.edits[c]) {
+				continue
+			}
+			if k%2 == 0 {
+				add("neighbour-pair", []int{b, c}, bp.style)
+			} else {
+				add("neighbour-pair", []int{c, b}, bp.style)
+			}
+		}
+		// replacements: something removed (or renamed) and something else
+		// added to the same list in one step - the addition must not mask
+		// the removal
+		var repl [][2]int
+		for _, b := range br {
+			want, ok := addFor[bp.edits[b].Op]
+			if !ok {
+				continue
+			}
+			for _, c := range co {
+				if want[bp.edits[c].Op] && containerOf(bp.edits[b]) == containerOf(bp.edits[c]) && !conflict(bp.edits[b], bp.edits[c]) {
+					repl = append(repl, [2]int{b, c})
+				}
+			}
+		}
+		rng.Shuffle(len(repl), func(a, b int) { repl[a], repl[b] = repl[b], repl[a] })
+		if len(repl) > nReplace {
+			repl = repl[:nReplace]
+		}
+		for k, bc := range repl {
+			if k%2 == 0 {
+				add("replace-pair", []int{bc[0], bc[1]}, bp.style)
+			} else {
+				add("replace-pair", []int{bc[1], bc[0]}, bp.style)
 			}
 		}
 		// random scripts of 2-6 edits: compatible-only and mixed
@@ -530,6 +704,7 @@ func runC18() int {
 	skipWhy := map[string]int{}
 	labelCount := map[string]int{}
 	warnSeen, errSeen := 0, 0
+	sigCount := map[string]int{}
 	for _, r := range results {
 		if r.skipped != "" {
 			w := r.skipped
@@ -571,6 +746,7 @@ func runC18() int {
 		run.Add("binary_vs_inprocess_agree", r.binAgree)
 		run.Add("binary_vs_inprocess_disagree", r.binDis)
 		run.Add("edits_dropped_in_combination", r.dropped)
+		run.Add("restyled_renderings_rejected_by_the_parser", r.restyleRejected)
 		for _, o := range r.outcomes {
 			errSeen += len(o.InProc.Errors)
 			warnSeen += len(o.InProc.Warnings)
@@ -593,12 +769,15 @@ func runC18() int {
 				run.Inconclusive(v.what)
 				continue
 			}
+			sigCount[v.sig]++
 			run.Violation(v.sig, v.what, v.witness)
 		}
 	}
 	knownWitnesses(run, bin, scratch)
 
 	run.Set("base_programs", len(bases))
+	run.Set("base_programs_fully_enumerated", nProg)
+	run.Set("base_programs_rare_operators_only", nRare)
 	feat := map[string]bool{}
 	files := 0
 	for _, b := range bases {
@@ -616,11 +795,12 @@ func runC18() int {
 	run.Set("operators_in_catalogue", len(catalogue))
 	run.Set("operators_exercised", len(opCount))
 	run.Set("skipped", skipWhy)
+	run.Set("refuting_observations_by_signature", sigCount)
 	run.Set("error_lines_observed", errSeen)
 	run.Set("warning_lines_observed", warnSeen)
 	run.Set("single_edit_enumeration", "exhaustive per base program: every operator of the catalogue at every applicable site")
 	cat := map[string]string{}
-	var never []string
+	never := []string{}
 	for op, ce := range catalogue {
 		l := "compatible: "
 		if ce.Breaking {
